@@ -4,6 +4,7 @@ from . import common
 
 PID = "C10"
 LEAN_MODULES = ["BtcHd.Props.C10"]
+LEAN_MODULES_THOROUGH = ['BtcHd.Props.TrBase58']
 TRUSTED_BASE = common.CORE_TRUSTED + [
     "double SHA-256 is a parameter of the theorems (only `4 <= len` of its output is used); the driver's concrete SHA-256 is compared with hashlib on every case",
 ]
